@@ -15,6 +15,11 @@
                            channel, tracking on), and what reaches the target parses to the
                            original request sent from the LAST hop's rq_sa to its rs_sa with
                            the payload unchanged
+  * `reroute_last`       — ONE Target object re-routed any number of times (`set_routing` history,
+                           longer / equal / SHORTER paths): the stored path is exactly the last one
+  * `reroute_peel_all`   — … and the request sent after ANY such history traverses exactly the hops
+                           of the path configured last (`peel_all` for that path): nothing of an
+                           earlier path is on the wire
   * `direct_when_single_hop` — a one-entry routing sends the plain request (no Send Message)
   * `bridged_is_bytes`   — the transmitted nest is a byte string
   * `unwrap_wrap`        — ANY number of successful Send Message responses around a reply whose
@@ -62,6 +67,22 @@ theorem peel_all (rs : List Route) (last : Route) (h : Hdr) (p : List Nat) (seq 
     · simp only [List.length_cons, peelN, List.map_cons]
       rw [peel_sendFrame g _ _ _ _ hr.1 hr.2.1 hs hr.2.2]
       simp [hpeel, hopOf]
+
+theorem reroute_last (t : Target) (paths : List (List Route)) (path : List Route) :
+    (t.reroute (paths ++ [path])).routing = some path := by
+  simp [Target.reroute, List.foldl_append, Target.setRouting]
+
+theorem reroute_peel_all (t : Target) (paths : List (List Route)) (rs : List Route) (last : Route) (h : Hdr)
+    (p : List Nat) (seq : Nat) (hh : h.InRange) (hs : seq < 64) (hrs : ∀ r ∈ rs, r.InRange)
+    (hl : last.rqSa < 256 ∧ last.rsSa < 256) :
+    ∃ f inner, (t.reroute (paths ++ [rs ++ [last]])).request h p seq = .ok f ∧
+      peelN rs.length f = some (rs.map (hopOf seq), inner) ∧
+      parseReq inner = some ({ h with rqSa := last.rqSa, rsSa := last.rsSa }, p) := by
+  have hreq : (t.reroute (paths ++ [rs ++ [last]])).request h p seq = encodeBridged (rs ++ [last]) h p seq := by
+    simp only [Target.request, reroute_last]
+    cases rs <;> rfl
+  rw [hreq]
+  exact peel_all rs last h p seq hh hs hrs hl
 
 theorem direct_when_single_hop (last : Route) (h : Hdr) (p : List Nat) (seq : Nat) :
     encodeBridged [last] h p seq = encodeIpmbMsg { h with rqSa := last.rqSa, rsSa := last.rsSa } p := by
@@ -177,6 +198,9 @@ example : (do
     pure (peelN 2 f)) =
     .ok (some ([⟨0x20, 0x81, 0, 1, 5⟩, ⟨0x82, 0x20, 7, 1, 5⟩],
       [0x72, 0x18, 0x76, 0x20, 0x44, 0xaa, 0x01, 0xf1])) := by decide
+/-- 3 hops, then re-routed to 2 hops on the same Target: the request is the 2-hop literal above -/
+example : (({} : Target).reroute [[⟨0x81, 0x20, 0⟩, ⟨0x20, 0x82, 7⟩, ⟨0x20, 0x72, 0⟩], demoRouting]).request
+      demoHdr [0xaa, 0xbb] 0x22 = encodeBridged demoRouting demoHdr [0xaa, 0xbb] 0x22 := by decide
 example : decodeBridged (wrapReply [demoHdr, demoHdr] (mkReply demoHdr [0, 1, 2])) = .ok (mkReply demoHdr [0, 1, 2]) :=
   unwrap_wrap _ _ (by decide) (by decide)
 example : decodeBridged (wrapReply [demoHdr] (wrapLayer demoHdr 0xc3 [])) = .ccError 0xc3 :=
